@@ -50,7 +50,7 @@ PROPS = {
 
 for _pid, _o in SERVER_ORACLES.items():
     if _pid in PROPS:
-        PROPS[_pid]["impl_oracle"] = _o
+        PROPS[_pid]["impl_oracle"] = {"server": _o}
 
 # the data-race half of C19 (and the goroutine halves of C12/C17) cannot be exhibited by a Gallina model:
 # the same lockstep scenarios are run under the Go race detector as supporting validation
